@@ -3,9 +3,9 @@ CONSTANTS
   P = 5
   MaxN = 3
   MaxT = 3
-  CoefVals = {0, 1, 2, 3, 4}
+  CoefVals = {1, 3}
   MsgVals = {2}
-  Kinds = {"ok", "bad", "other", "stale"}
+  Kinds = {"ok", "bad", "stale"}
   MaxArrivals = 3
   MaxPerParty = 2
 INVARIANTS TypeOK C33_Cap C33_OnlyValidStored C33_SeedIffThreshold C33_SeedFunction
